@@ -1,4 +1,4 @@
-import FxVerif.Proofs.C05
+import FxVerif.Proofs.C06
 /-!
 # C05 — every outgoing transfer is in exactly one place and is settled exactly once
 
@@ -277,6 +277,17 @@ theorem pick_is_fee_descending_prefix (t : Token) (base n : Nat) (l : List Tx) :
         · have : base ≤ x.fee := by omega
           simp [ht, h1, h2, Cmp.eval, hb, filter_cons, takeWhile_cons, this, ih n]
       · simp [ht, filter_cons, ih (n + 1)]
+
+/-- consequences of the prefix form: every selected transfer is of the requested token with fee ≥ base fee, and at most
+`n` (= `OutgoingTxBatchSize` in `doReqBatch`) are selected -/
+theorem pick_respects_base_and_size (t : Token) (base n : Nat) (l : List Tx) :
+    (∀ x ∈ (pick t base n l).1, base ≤ x.fee ∧ x.token = t) ∧ (pick t base n l).1.length ≤ n := by
+  refine ⟨fun x hx => ⟨?_, pick_fst_token t base n l x hx⟩, ?_⟩
+  · rw [pick_is_fee_descending_prefix] at hx
+    have := FxVerif.Proofs.C06.mem_takeWhile_true _ _ _ ((take_sublist _ _).subset hx)
+    simpa using this
+  · rw [pick_is_fee_descending_prefix]
+    exact length_take_le _ _
 
 /-- non-vacuity: a reachable state with a transfer in the pool, one in a batch, one executed and one refunded -/
 example : ∃ ops : List Op, let s := run (init 1 [((0, 0), 100)] {}) ops
